@@ -5,12 +5,18 @@
 //!   create/drop hash index and ordered index on every column and on `_id`) up to depth 3 (quick) /
 //!   4 (thorough), each sequence replayed on a fresh table of the real engine, dedup on a canonical
 //!   observation (rows, next id, index flags, raw vectorised columns + alive/null masks, every stored
-//!   index entry).  On every distinct state a battery of conditions goes through every read
-//!   strategy (select, count, select_columnar, select_iter, select_streaming, select_with_limit
-//!   for all limit/offset, sum/min/max), through update/delete_rows on a rebuilt copy, and as WHERE
-//!   text through QueryRouter::execute and ::execute_parsed.
-//! Part B: every sequence of exactly five inserts (tables longer than the 4 SIMD lanes), with and
-//!   without indexes, lighter battery.
+//!   index entry).  On every distinct state a battery of conditions goes through every public
+//!   entry point of RelationalEngine that takes a condition (EP_NAMES below; call counts are
+//!   measured into the evidence): select, select_with_options, select_with_projection,
+//!   select_columnar, select_with_limit (all limit/offset), select_iter, select_streaming and
+//!   select_streaming_builder (all batch sizes, max_rows), select_distinct, select_grouped,
+//!   tx_select, count, count_column, sum/avg/min/max; update/delete_rows, their *_with_options
+//!   variants and tx_update/tx_delete on a rebuilt copy; and as text through QueryRouter::execute
+//!   and ::execute_parsed (SELECT *, the aggregate spellings COUNT(*)/COUNT(col)/SUM/AVG/MIN/MAX,
+//!   GROUP BY, LIMIT/OFFSET, UPDATE, DELETE).
+//! Part B: every sequence of exactly five inserts (tables longer than the 4 SIMD lanes), without
+//!   indexes, with indexes created afterwards, and with indexes created first + one batch_insert;
+//!   lighter battery.
 //! Oracle: `{ r in reference rows | Condition::evaluate(r) }`; reference rows are a BTreeMap that is
 //!   compared with the slab after every mutation.
 //! Flags: --selftest (deliberately wrong oracle, must print VIOLATION), --repro (the standalone
@@ -601,7 +607,7 @@ fn build(seq: &[Op]) -> (Eng, Model) {
 
 // ------------------------------------------------------------------ violation collection
 /// every public entry point that is driven with a condition (index into `Out::ep`, measured per call)
-const EP_NAMES: [&str; 34] = [
+const EP_NAMES: [&str; 36] = [
     "RelationalEngine::select",
     "RelationalEngine::select_with_options",
     "RelationalEngine::select_with_projection",
@@ -635,6 +641,8 @@ const EP_NAMES: [&str; 34] = [
     "QueryRouter::execute_parsed DELETE FROM .. WHERE",
     "QueryRouter::execute UPDATE .. WHERE",
     "QueryRouter::execute DELETE .. WHERE",
+    "QueryRouter::execute_parsed SELECT s,i .. WHERE .. LIMIT l OFFSET o",
+    "QueryRouter::execute SELECT * .. WHERE .. LIMIT l",
     "RelationalEngine::batch_insert (history)",
 ];
 const EP_SELECT: usize = 0;
@@ -667,12 +675,14 @@ const EP_TEXT_UPDATE_AST: usize = 29;
 const EP_TEXT_DELETE_AST: usize = 30;
 const EP_TEXT_UPDATE_LEGACY: usize = 31;
 const EP_TEXT_DELETE_LEGACY: usize = 32;
-const EP_BATCH_INSERT: usize = 33;
+const EP_TEXT_LIMIT_AST: usize = 33;
+const EP_TEXT_LIMIT_LEGACY: usize = 34;
+const EP_BATCH_INSERT: usize = 35;
 
-struct Counts([u64; 34]);
+struct Counts([u64; 36]);
 impl Default for Counts {
     fn default() -> Self {
-        Counts([0; 34])
+        Counts([0; 36])
     }
 }
 impl std::ops::Index<usize> for Counts {
@@ -961,9 +971,13 @@ fn check_count_column(out: &mut Out, ctx: &Ctx, eng: &Eng, cx: &Cx, exp: &[u64],
     match eng.e().count_column(&eng.t, COLS[col], cx.cond()) {
         Ok(n) if n == want => {}
         Ok(n) => {
-            // the same number over the rows `select` returns: then the lookup is the cause
-            let via_select = sel.filter(|s| nonnull_of(ctx.m, s, col) == n);
-            let sig = agg_sig("count_column", cx, ctx.m, exp, via_select.or(if sel == Some(exp) { sel } else { None }), Some(n > want));
+            let sig = match sel {
+                // the same number over the rows `select` returns: then the lookup is the cause
+                Some(s) if s != exp && nonnull_of(ctx.m, s, col) == n => classify(false, cx, ctx.m, exp, s),
+                Some(s) if s == exp => agg_sig("count_column", cx, ctx.m, exp, sel, Some(n > want)),
+                // select is wrong as well, in another way (or was not asked)
+                _ => format!("c04:count_column:{}:{}:{}", index_path(cx, ctx.m).unwrap_or("scan"), shape(cx), if n > want { "overcount" } else { "undercount" }),
+            };
             let mut rj = qjson(cx, "count_column", exp, &[]);
             rj["column"] = json!(COLS[col]);
             rj["got"] = json!(n);
@@ -1494,14 +1508,49 @@ enum AggK {
 /// The aggregate spellings of the AST grammar with the same condition as WHERE text through
 /// `QueryRouter::execute_parsed` (the legacy `execute` grammar ignores the select list and has no
 /// aggregates). variant 0: COUNT(*) and COUNT(col) for every column; 1: SUM/AVG (+ lower-case and
-/// aliased COUNT); 2: MIN/MAX (+ table-qualified COUNT); 3: GROUP BY b with COUNTs.
-fn text_agg_battery(out: &mut Out, ctx: &Ctx, eng: &Eng, cx: &Cx, variant: usize) {
+/// aliased COUNT); 2: MIN/MAX (+ table-qualified COUNT); 3: GROUP BY b with COUNTs; 4: a projected
+/// select list with LIMIT l OFFSET o (l in 1..=3, o in 0..=2 taken from `v`), and the legacy
+/// `SELECT * FROM t WHERE .. LIMIT l`.
+const TEXT_VARIANTS: usize = 5;
+fn text_agg_battery(out: &mut Out, ctx: &Ctx, eng: &Eng, cx: &Cx, v: usize) {
+    let variant = v % TEXT_VARIANTS;
     let Some(w) = cx.paren_text() else { return };
     let router = &eng.pool.router;
     let e = eng.e();
     let t = eng.t.as_str();
     let c = cx.cond();
     let exp = matching_rows(&ctx.rows, &c, ctx.selftest);
+    if variant == 4 {
+        let (l, o) = (1 + (v / TEXT_VARIANTS) % 3, (v / (3 * TEXT_VARIANTS)) % 3);
+        let mut runs = vec![(EP_TEXT_LIMIT_AST, format!("SELECT s, i FROM {t} WHERE {w} LIMIT {l} OFFSET {o}"), format!("SELECT s, i FROM t WHERE {w} LIMIT {l} OFFSET {o}"), l.min(exp.len().saturating_sub(o)), true)];
+        if let Some(lw) = cx.legacy_text() {
+            runs.push((EP_TEXT_LIMIT_LEGACY, format!("SELECT * FROM {t} WHERE {lw} LIMIT {l}"), format!("SELECT * FROM t WHERE {lw} LIMIT {l}"), l.min(exp.len()), false));
+        }
+        for (ep, sql, shown, want_len, ast) in runs {
+            out.hit(ep);
+            match if ast { router.execute_parsed(&sql) } else { router.execute(&sql) } {
+                Ok(QueryResult::Rows(rs)) => {
+                    out.text_ok += 1;
+                    out.judged[ep] += 1;
+                    let got = ids_of(&rs);
+                    let foreign = got.iter().any(|x| !exp.contains(x));
+                    let dup = sorted(got.clone()).windows(2).any(|w| w[0] == w[1]);
+                    let content = content_ok(&rs, ctx.m, if ast { Some(&["s", "i"]) } else { None });
+                    if foreign || dup || got.len() != want_len || !content {
+                        let direct = if ast { e.select_columnar(t, c.clone(), ColumnarScanOptions { projection: None, prefer_columnar: true }) } else { e.select(t, c.clone()) }.map(|r| sorted(ids_of(&r))).unwrap_or_default();
+                        let entry = if ast { "execute_parsed" } else { "execute" };
+                        let sig = if direct != exp { classify(ast, cx, ctx.m, &exp, &direct) } else { format!("c04:text:{entry}:limit-offset:{}", if foreign { "returns-nonmatching-row" } else if dup { "repeats-row" } else if !content { "row-content" } else { "page-length" }) };
+                        let mut rj = qjson(cx, entry, &exp, &got);
+                        rj["sql"] = json!(shown);
+                        out.viol(sig, format!("QueryRouter::{entry}({shown:?}) returned ids {got:?} (values as stored: {content}); the rows satisfying the condition are {exp:?} so the page must hold {want_len} of them"), ctx.seq, rj);
+                    }
+                }
+                Ok(_) => out.text_unjudged += 1,
+                Err(_) => out.text_err += 1,
+            }
+        }
+        return;
+    }
     let rows: Vec<&Vals> = exp.iter().map(|id| &ctx.m.rows[id]).collect();
     let colv = |k: usize| -> Vec<Val> { rows.iter().map(|r| r[k]).collect() };
     out.hit(EP_TEXT_AGG + variant);
@@ -1742,7 +1791,9 @@ struct Plan {
     /// of the conditions sent as `SELECT *` text, every n-th is also sent with an aggregate select list
     text_agg_atoms_step: usize,
     text_agg_pairs_step: usize,
-    /// every conditional write through all WRITE_VARIANTS (otherwise one rotating variant)
+    text_agg_triples_step: usize,
+    /// every conditional write through all WRITE_VARIANTS and every aggregate text in all four
+    /// spellings (otherwise one rotating variant / spelling)
     write_all_variants: bool,
 }
 fn plan(thorough: bool) -> Plan {
@@ -1805,9 +1856,14 @@ fn plan(thorough: bool) -> Plan {
         write_set.push(and(&sc[0], &sc[2]));
         write_set.push(or(&sc[1], &sc[5]));
     }
-    Plan { full: full_atoms(), pairs, triples, limit_set, write_set, text_pairs_step: if thorough { 2 } else { 5 }, level: if thorough { 2 } else { 1 }, text_atoms_step: if thorough { 1 } else { 2 }, cc_all: thorough, all_batches: thorough, text_agg_atoms_step: if thorough { 2 } else { 6 }, text_agg_pairs_step: if thorough { 1 } else { 3 }, write_all_variants: thorough }
+    Plan { full: full_atoms(), pairs, triples, limit_set, write_set, text_pairs_step: if thorough { 2 } else { 5 }, level: if thorough { 2 } else { 1 }, text_atoms_step: if thorough { 1 } else { 2 }, cc_all: false, all_batches: false, text_agg_atoms_step: 6, text_agg_pairs_step: if thorough { 6 } else { 3 }, text_agg_triples_step: if thorough { 4 } else { 1 }, write_all_variants: false }
 }
 
+/// `--replay`: one state, so nothing rotates: every column, every batch size, every aggregate
+/// spelling on every text condition, every write variant
+fn plan_replay() -> Plan {
+    Plan { cc_all: true, all_batches: true, text_agg_atoms_step: 1, text_agg_pairs_step: 1, text_agg_triples_step: 1, write_all_variants: true, ..plan(true) }
+}
 fn battery(seq: &[Op], pl: &Plan, selftest: bool) -> Out {
     let mut out = Out::default();
     let timing = std::env::var("C04_TIMING").is_ok();
@@ -1824,6 +1880,16 @@ fn battery(seq: &[Op], pl: &Plan, selftest: bool) -> Out {
     // running number of the condition: rotates the counted column / the aggregate spelling / the
     // write variant together with the depth of the state
     let mut k = seq.len();
+    let text_agg = |out: &mut Out, cx: &Cx, v: usize| {
+        if pl.write_all_variants {
+            // every spelling, every LIMIT/OFFSET pair of the last one
+            for v in (0..4).chain((0..9).map(|p| 4 + TEXT_VARIANTS * p)) {
+                text_agg_battery(out, &ctx, &eng, cx, v);
+            }
+        } else {
+            text_agg_battery(out, &ctx, &eng, cx, v);
+        }
+    };
     read_battery(&mut out, &ctx, &eng, &Cx::True, 2, k, true);
     let core = core_atoms();
     for cx in &pl.full {
@@ -1836,7 +1902,7 @@ fn battery(seq: &[Op], pl: &Plan, selftest: bool) -> Out {
     for (j, cx) in pl.full.iter().skip(seq.len() % pl.text_atoms_step).step_by(pl.text_atoms_step).enumerate() {
         text_battery(&mut out, &ctx, &eng, cx);
         if (j + seq.len()) % pl.text_agg_atoms_step == 0 {
-            text_agg_battery(&mut out, &ctx, &eng, cx, (j / pl.text_agg_atoms_step + seq.len()) % 4);
+            text_agg(&mut out, cx, j / pl.text_agg_atoms_step + seq.len());
         }
     }
     lap("atoms text", out.calls);
@@ -1854,7 +1920,7 @@ fn battery(seq: &[Op], pl: &Plan, selftest: bool) -> Out {
     for (j, cx) in pl.pairs.iter().step_by(pl.text_pairs_step).enumerate() {
         text_battery(&mut out, &ctx, &eng, cx);
         if (j + seq.len()) % pl.text_agg_pairs_step == 0 {
-            text_agg_battery(&mut out, &ctx, &eng, cx, (j / pl.text_agg_pairs_step + seq.len()) % 4);
+            text_agg(&mut out, cx, j / pl.text_agg_pairs_step + seq.len());
         }
     }
     lap("pairs text", out.calls);
@@ -1864,7 +1930,9 @@ fn battery(seq: &[Op], pl: &Plan, selftest: bool) -> Out {
         // every second triple of each of the four nestings, alternating with the depth
         if (j / 4 + j % 4 + seq.len()) % 2 == 0 {
             text_battery(&mut out, &ctx, &eng, cx);
-            text_agg_battery(&mut out, &ctx, &eng, cx, (j / 2 + seq.len()) % 4);
+            if (j / 8) % pl.text_agg_triples_step == 0 {
+                text_agg(&mut out, cx, j / 2 + seq.len());
+            }
         }
     }
     lap("triples", out.calls);
@@ -1925,8 +1993,10 @@ fn light_battery(seq: &[Op], pl: &Plan, selftest: bool) -> Out {
         k += 1;
         limit_battery(&mut out, &ctx, &eng, &cx, false, k);
         let exp = matching_rows(&ctx.rows, &cx.cond(), selftest);
+        // what select returns, so that a wrong count caused by the lookup is named after the lookup
+        let sel = eng.e().select(&eng.t, cx.cond()).map(|r| ids_of(&r)).ok();
         for col in 0..4 {
-            check_count_column(&mut out, &ctx, &eng, &cx, &exp, None, col);
+            check_count_column(&mut out, &ctx, &eng, &cx, &exp, sel.as_deref(), col);
         }
     }
     for cx in pl.pairs.iter().step_by(2) {
@@ -2094,7 +2164,7 @@ fn main() {
     let pl = plan(thorough);
     rep.rule("part B: every sequence of exactly five inserts over a subset of the templates (quick 3, thorough 6), (a) without indexes, (b) with hash+ordered indexes on i and f created afterwards, (c) with those indexes created first and the five rows inserted by one batch_insert; battery: all atoms + TRUE through select/count/count_column(one rotating column)/select_columnar, the limit/offset/streaming/max_rows sweep and count_column on all four columns for TRUE and the core atoms, half of the pairs");
     rep.rule(&format!(
-        "on every distinct state: 6 operators x {{i,f,s,b,_id}} x every alphabet value (cross-type included) + TRUE = {} conditions through select, count, count_column ({}), select_columnar (vectorised{}), select_streaming{} and as WHERE text through QueryRouter::execute (legacy grammar) and ::execute_parsed (AST grammar){}; {} AND/OR pairs of the 25 core atoms and {} AND-of-OR / OR-of-AND triples through select, count, count_column, select_columnar and (pairs: every {}; triples: every 2nd) as text; of the conditions sent as `SELECT *` text every {} atom / every {} pair / every triple is also sent through execute_parsed with an aggregate select list, the four spellings rotating with the condition and the depth: [COUNT(*),COUNT(i),COUNT(f),COUNT(s),COUNT(b)] | [SUM(i),SUM(f),AVG(i),AVG(f),count(f) AS n,count(*)] | [MIN/MAX(i,f,s),COUNT(t.s),COUNT(b)] | [b,COUNT(*),COUNT(i),COUNT(s) GROUP BY b]; for {} conditions (TRUE, core atoms, AND pairs) select_with_limit and select_iter for every limit,offset <= n+1, page walks for every page size, select_streaming(_builder) for every batch size <= n+1 and with max_rows 0..n+1 ({}), count_column on all four columns, sum/avg/min/max, select_with_projection, select_with_options, tx_select, select_distinct (all columns | [s] | [b,i], rotating), select_grouped (no grouping column with 12 aggregates | grouped by b with counts{}); for {} conditions a conditional update and a conditional delete, each on a rebuilt copy, issued {} of: update/delete_rows, update_with_options/delete_rows_with_options, tx_update/tx_delete + commit, UPDATE/DELETE text through execute_parsed, through execute; materialize_columns/drop_columnar_data followed by the core atoms again. non-trivial = the condition selects a proper non-empty subset of the rows",
+        "on every distinct state: 6 operators x {{i,f,s,b,_id}} x every alphabet value (cross-type included) + TRUE = {} conditions through select, count, count_column ({}), select_columnar (vectorised{}), select_streaming{} and as WHERE text through QueryRouter::execute (legacy grammar) and ::execute_parsed (AST grammar){}; {} AND/OR pairs of the 25 core atoms and {} AND-of-OR / OR-of-AND triples through select, count, count_column, select_columnar and (pairs: every {}; triples: every 2nd) as text; of the conditions sent as `SELECT *` text every {} atom / every {} pair / every {} triple is also sent through execute_parsed with an aggregate / projected+limited select list, the five spellings rotating with the condition and the depth: [COUNT(*),COUNT(i),COUNT(f),COUNT(s),COUNT(b)] | [SUM(i),SUM(f),AVG(i),AVG(f),count(f) AS n,count(*)] | [MIN/MAX(i,f,s),COUNT(t.s),COUNT(b)] | [b,COUNT(*),COUNT(i),COUNT(s) GROUP BY b] | [s,i .. LIMIT l OFFSET o through execute_parsed and * .. LIMIT l through execute, l in 1..3, o in 0..2 rotating]; for {} conditions (TRUE, core atoms, AND pairs) select_with_limit and select_iter for every limit,offset <= n+1, page walks for every page size, select_streaming(_builder) for every batch size <= n+1 and with max_rows 0..n+1 ({}), count_column on all four columns, sum/avg/min/max, select_with_projection, select_with_options, tx_select, select_distinct (all columns | [s] | [b,i], rotating), select_grouped (no grouping column with 12 aggregates | grouped by b with counts{}); for {} conditions a conditional update and a conditional delete, each on a rebuilt copy, issued {} of: update/delete_rows, update_with_options/delete_rows_with_options, tx_update/tx_delete + commit, UPDATE/DELETE text through execute_parsed, through execute; materialize_columns/drop_columnar_data followed by the core atoms again. non-trivial = the condition selects a proper non-empty subset of the rows",
         pl.full.len() + 1,
         if pl.cc_all { "all four columns" } else { "one column, rotating with the condition and the depth of the state" },
         if thorough { "; on TRUE and the core atoms also with projection, with prefer_columnar=false" } else { "" },
@@ -2103,8 +2173,9 @@ fn main() {
         pl.pairs.len(),
         pl.triples.len(),
         if thorough { "2nd" } else { "5th" },
-        if pl.text_agg_atoms_step == 2 { "2nd" } else { "6th" },
-        if pl.text_agg_pairs_step == 1 { "such" } else { "3rd such" },
+        "6th",
+        if thorough { "6th such" } else { "3rd such" },
+        if thorough { "4th such group of 8" } else { "such" },
         pl.limit_set.len(),
         if pl.all_batches { "every batch size" } else { "one rotating batch size per max_rows" },
         if pl.all_batches { ", both" } else { ", alternating" },
@@ -2121,7 +2192,7 @@ fn main() {
     if let Some(path) = rep.args.replay.clone() {
         let body: serde_json::Value = serde_json::from_str(&std::fs::read_to_string(&path).expect("read replay")).expect("parse replay");
         let seq: Vec<Op> = serde_json::from_value(body["replay"]["ops_code"].clone()).expect("ops_code");
-        let o = battery(&seq, &plan(true), false);
+        let o = battery(&seq, &plan_replay(), false);
         for (sig, msg, r) in o.viols {
             rep.violation(sig, msg, r);
         }
